@@ -14,13 +14,21 @@ Case line:  `<C03|C16> <sum|aff> <ctl|own|big> [pm=<k>] ; op ; op ; …`
          bound (and the share of distinct priorities) is the measured (statistical) claim.
 
 Operations: `new`, `item v p`, `merge i j`, `splitat i k`, `splitby i lt|le|gt|ge c`,
-`insert i k v p`, `remove i k`, `first i`, `last i`, `collect i`, `size i`, `agg i`, `tag i m…`, `drop i`.
+`insert i k v p`, `remove i k`, `first i`, `last i`, `collect i`, `size i`, `agg i`, `tag i m…`, `drop i`,
+and the operations that RE-USE what the API returned: `move i k j pos p` (`remove_at` + `insert_at` of the
+returned item), `take i k p` (`remove_at` + `from_item`), `dup i first|last|collect p` (clone of the only
+element), `collect2 i j` (`collect_into` of two treaps into one vector).
+
+Items: `sum`, `aff`, and `key` (an item that relies on the default `update`/`push` and has no size: only
+`new item merge splitby first last collect collect2 size dup drop` exist for it; its sizes are node counts).
 -/
 open Rlib Rlib.Treap
 
 structure ItemIO (G M : Type) where
   parseTag : List String → Option M
   showG : G → String
+  /-- does the Rust twin implement `TreapItemSized` (and have tags and an aggregate)? -/
+  sized : Bool := true
 
 def sumIO : ItemIO (Nat × Int) Int where
   parseTag
@@ -35,6 +43,17 @@ def affIO : ItemIO (Int × Int) (Int × Int) where
       | _, _ => none
     | _ => none
   showG g := s!"({g.1},{g.2})"
+
+def keyIO : ItemIO Unit Unit where
+  parseTag _ := some ()
+  showG _ := "()"
+  sized := false
+
+/-- operations that exist for an item without `TreapItemSized`, tags and aggregate -/
+def opUnsized {E M V : Type} : Op E M V → Bool
+  | .new | .item _ _ | .merge _ _ | .splitBy _ _ | .first _ | .last _ | .collect _ | .collect2 _ _
+  | .size _ | .dup _ _ _ | .drop _ => true
+  | _ => false
 
 /-- the model's own priority for the `k`-th node created with priority `*` -/
 def modelPrio (pm k : Nat) : Nat :=
@@ -97,6 +116,23 @@ def parseOp {G M : Type} (io : ItemIO G M) (pm k : Nat) (toks : List String) : O
     match parseNat? i, io.parseTag rest with
     | some i, some m => some (.tag i m, k)
     | _, _ => none
+  | ["move", i, n, j, pos, p] =>
+    match parseNat? i, parseNat? n, parseNat? j, parseNat? pos, parsePrio pm k p with
+    | some i, some n, some j, some pos, some (p, k') => some (.moveAt i n j pos p, k')
+    | _, _, _, _, _ => none
+  | ["take", i, n, p] =>
+    match parseNat? i, parseNat? n, parsePrio pm k p with
+    | some i, some n, some (p, k') => some (.takeAt i n p, k')
+    | _, _, _ => none
+  | ["dup", i, w, p] =>
+    let w? : Option Nat := if w = "first" then some 0 else if w = "last" then some 1 else if w = "collect" then some 2 else none
+    match parseNat? i, w?, parsePrio pm k p with
+    | some i, some w, some (p, k') => some (.dup i w p, k')
+    | _, _, _ => none
+  | ["collect2", i, j] =>
+    match parseNat? i, parseNat? j with
+    | some i, some j => some (.collect2 i j, k)
+    | _, _ => none
   | _ => none
 
 def parseOps {G M : Type} (io : ItemIO G M) (pm : Nat) : Nat → List String → Option (List (Op Int M Int))
@@ -116,6 +152,7 @@ def showObs {G : Type} (showG : G → String) (view : Bool) : Obs Int G → Stri
   | .optG (some g) => "g:" ++ showG g
   | .removed (.ok e) => s!"rm:{e}"
   | .removed (.error p) => if view then "rm:panic" else "rm:" ++ p.toString
+  | .moved e n => s!"mv:{e}:n:{n}"
 
 def showSkel : Tree Unit → String
   | .nil => "."
@@ -147,6 +184,7 @@ def runCase {T G M : Type} (I : TItem T Int G M Int) (io : ItemIO G M)
   match parseOps io pm 0 opStrs with
   | none => "BAD-OPS"
   | some ops =>
+    if !io.sized && !ops.all opUnsized then answer "INVALID" "any" else
     if focus = "C03" then
       match runM I [] ops, runS I [] ops with
       | some (_, mo), some (_, so) =>
@@ -221,6 +259,7 @@ def handle (line : String) : String :=
       let r :=
         if item = "sum" then runCase sumAdd sumIO focus stream pm opStrs
         else if item = "aff" then runCase affHash affIO focus stream pm opStrs
+        else if item = "key" then runCase keyOnly keyIO focus stream pm opStrs
         else "BAD-OPS"
       if r = "BAD-OPS" then badLine line else r
     | _ => badLine line
